@@ -335,6 +335,74 @@ fn special(kind: &str, lock: &str, n: u32, path: &str, out: &mut Vec<(u32, u32)>
 			c.extend((h..n).map(mk_lock_m));
 			LockableIntoInner::into_inner(c).flat(out);
 		}
+		// iterators whose size_hint has no useful lower bound (filter) or that arrive in several pieces
+		("extend_filter", "owned", "M") => {
+			let h = n / 2;
+			let mut c = OwnedLockCollection::new((0..h).map(mk_lock_m).collect::<Vec<_>>());
+			c.extend((h..n).filter(|_| true).map(mk_lock_m));
+			c.extend(std::iter::empty());
+			LockableIntoInner::into_inner(c).flat(out);
+		}
+		("extend_filter", "retry", "M") => {
+			let h = n / 2;
+			let mut c = RetryingLockCollection::new((0..h).map(mk_lock_m).collect::<Vec<_>>());
+			c.extend((h..n).filter(|_| true).map(mk_lock_m));
+			c.extend(std::iter::empty());
+			LockableIntoInner::into_inner(c).flat(out);
+		}
+		("extend_twice", "owned", "M") => {
+			let h = n / 2;
+			let mut c = OwnedLockCollection::new(Vec::<Mutex<DC>>::new());
+			c.extend((0..h).map(mk_lock_m));
+			c.extend((h..n).map(mk_lock_m).collect::<Vec<_>>());
+			LockableIntoInner::into_inner(c).flat(out);
+		}
+		("extend_twice", "retry", "M") => {
+			let h = n / 2;
+			let mut c = RetryingLockCollection::new(Vec::<Mutex<DC>>::new());
+			c.extend((0..h).map(mk_lock_m));
+			c.extend((h..n).map(mk_lock_m).collect::<Vec<_>>());
+			LockableIntoInner::into_inner(c).flat(out);
+		}
+		("from_iter_filter", "boxed", "M") => {
+			let c: BoxedLockCollection<Vec<Mutex<DC>>> = (0..n).filter(|_| true).map(mk_lock_m).collect();
+			LockableIntoInner::into_inner(c).flat(out);
+		}
+		("from_iter_filter", "owned", "M") => {
+			let c: OwnedLockCollection<Vec<Mutex<DC>>> = (0..n).filter(|_| true).map(mk_lock_m).collect();
+			LockableIntoInner::into_inner(c).flat(out);
+		}
+		("from_iter_filter", "retry", "M") => {
+			let c: RetryingLockCollection<Vec<Mutex<DC>>> = (0..n).filter(|_| true).map(mk_lock_m).collect();
+			LockableIntoInner::into_inner(c).flat(out);
+		}
+		("from_value", "boxed", "M") => {
+			let c: BoxedLockCollection<Vec<Mutex<DC>>> = From::from((0..n).map(mk_lock_m).collect::<Vec<_>>());
+			LockableIntoInner::into_inner(c).flat(out);
+		}
+		("from_value", "owned", "M") => {
+			let c: OwnedLockCollection<Vec<Mutex<DC>>> = From::from((0..n).map(mk_lock_m).collect::<Vec<_>>());
+			LockableIntoInner::into_inner(c).flat(out);
+		}
+		("from_value", "retry", "M") => {
+			let c: RetryingLockCollection<Vec<Mutex<DC>>> = From::from((0..n).map(mk_lock_m).collect::<Vec<_>>());
+			LockableIntoInner::into_inner(c).flat(out);
+		}
+		("into_iter_rev", "boxed", "M") => {
+			// the by-value iterator consumed from both ends: every value exactly once, front ones first
+			let c = BoxedLockCollection::new((0..n).map(mk_lock_m).collect::<Vec<_>>());
+			let mut it = c.into_iter();
+			let mut back = vec![];
+			if let Some(m) = it.next() {
+				m.flat(out);
+			}
+			while let Some(m) = it.next_back() {
+				back.push(m);
+			}
+			for m in back.into_iter().rev() {
+				m.flat(out);
+			}
+		}
 		("try_new_reject", "boxed", "M") => {
 			// the input owns n payload-carrying locks and lists an outside lock twice: rejected, input dropped once
 			let shared = Mutex::new(DC { id: 31, ver: 0 });
